@@ -4,7 +4,7 @@ import pi2v, funcs
 from pi2v import prefix, rust_run, py_run, tkey
 from c06 import set_mvs
 
-PLUGS = [pi2v.EV(0), pi2v.EV(1), pi2v.SV(0), pi2v.SV(1), pi2v.MV(1), pi2v.MV(0), pi2v.IMP(pi2v.SV(0), pi2v.EV(1)),
+PLUGS = [pi2v.EX(0, pi2v.EV(0)), pi2v.IMP(pi2v.MU(1, pi2v.SV(1)), pi2v.SV(0)), pi2v.EV(0), pi2v.EV(1), pi2v.SV(0), pi2v.SV(1), pi2v.MV(1), pi2v.MV(0), pi2v.IMP(pi2v.SV(0), pi2v.EV(1)),
          pi2v.EX(0, pi2v.EV(1)), pi2v.MU(1, pi2v.SV(0)), pi2v.MV(1, [0], [1]), pi2v.ES(pi2v.MV(2), 1, pi2v.EV(0))]
 
 
